@@ -578,9 +578,43 @@ def run(ctx, driver):
                 ctx.gap_cases += 1
             if t[4] != "0" or t[5] not in ("-1,0,1", "0,1"):
                 ctx.count("periods_other:%s|%s" % (t[4], t[5]))
+    # ---------------- the threshold is a live configuration knob
+    live_threshold_pass(ctx)
     # ---------------- recipes vs NumPy, exhaustive small scope
     recipes(ctx, driver)
     ctx.count("correspondence_lines", ctx.corr_lines)
+
+
+def live_threshold_pass(ctx):
+    """EFFECTIVE_SUPPORT_THRESHOLD is a documented configuration knob: a bank built after it was changed must meet the
+    property's bound for the value in force (oracle only: the generated model carries the default)."""
+    from pydrobert.speech import config
+
+    eps0 = config.EFFECTIVE_SUPPORT_THRESHOLD
+    fixed = [dict(kind="gabor", rate=16000, low_hz=20.0, high_hz=None, num_filts=40, scale=dict(name="mel"), l2=False, erb=False),
+             dict(kind="gabor", rate=8000, low_hz=0.0, high_hz=None, num_filts=10, scale=dict(name="bark"), l2=True, erb=True),
+             dict(kind="gammatone", rate=16000, low_hz=20.0, high_hz=None, num_filts=40, scale=dict(name="mel"), l2=False, erb=False, order=4, max_centered=False),
+             dict(kind="gammatone", rate=8000, low_hz=0.0, high_hz=None, num_filts=64, scale=dict(name="mel"), l2=False, erb=True, order=2, max_centered=True),
+             dict(kind="tri", rate=8000, low_hz=20.0, high_hz=None, num_filts=10, scale=dict(name="mel"), analytic=False)]
+    try:
+        for eps in (1e-4, 5e-3):
+            config.EFFECTIVE_SUPPORT_THRESHOLD = eps
+            for spec0 in fixed:
+                if ctx.out_of_time():
+                    return
+                spec = dict(spec0, threshold=eps)
+                try:
+                    bank = make_bank(spec)
+                except Exception as e:
+                    ctx.count("bank_ctor_error:" + type(e).__name__)
+                    continue
+                ctx.count("live_threshold_bank:" + spec["kind"])
+                n = bank.num_filts
+                for i in sorted({0, 2 % n, n // 2, n - 1}):
+                    for W in (64, 127, 512, 1025):
+                        oracle_case(ctx, bank, spec, i, W, eps)
+    finally:
+        config.EFFECTIVE_SUPPORT_THRESHOLD = eps0
 
 
 def recipes(ctx, driver):
@@ -639,6 +673,8 @@ def replay(rp):
     print(common.canon(case))
     if "bank" in case:
         spec, i, W = case["bank"], case["filt"], case["width"]
+        if spec.get("threshold") is not None:
+            config.EFFECTIVE_SUPPORT_THRESHOLD = spec["threshold"]   # recorded under a changed knob (live_threshold_pass)
         bank = make_bank(spec)
         eps = float(config.EFFECTIVE_SUPPORT_THRESHOLD)
         ctx = common.Ctx(PROP, "quick", 0, 600)
